@@ -675,6 +675,26 @@ class Exec(Interp):
         self.discharged += 1
         self.discharge_kinds[kind] = self.discharge_kinds.get(kind, 0) + 1
 
+    def shape_of(self, st, v, depth=0):
+        """structural abstract description of a value (ranges, variants), for fixpoint detection"""
+        if depth > 6 or not isinstance(v, tuple) or not v:
+            return ('?',)
+        if v[0] == 'int':
+            return ('int', v[1]) + tuple(self.rng(st, v[2])) + (tuple(sorted(X for X, strict in self.upper_set(st, v[2]).items() if strict)),)
+        if v[0] == 'float':
+            fv = self.fview(st, v)
+            return ('float', fv[1], fv[2], fv[3])
+        if v[0] == 'bool':
+            return ('bool', st.bv.get(v[1]))
+        if v[0] == 'tuple':
+            return ('tuple',) + tuple(self.shape_of(st, st.cells.get(c, ('top',)), depth + 1) for c in v[1])
+        if v[0] == 'adt':
+            return ('adt', v[1], tuple(sorted(v[2])) if v[2] else None) + tuple(
+                (vn, fn, self.shape_of(st, st.cells.get(c, ('top',)), depth + 1)) for vn in sorted(v[3]) for fn, c in sorted(v[3][vn].items()))
+        if v[0] == 'buf':
+            return ('buf',) + tuple(self.rng(st, v[1]))
+        return (v[0],)
+
     def describe(self, st, v):
         if v[0] == 'int':
             lo, hi = self.rng(st, v[2])
@@ -696,6 +716,8 @@ class Exec(Interp):
         self.visited_fns.add(body.id)
         fr = Frame(body)
         for i, a in enumerate(args):
+            if a[0] == 'float' and len(a) == 4:
+                a = a + (self.vid(),)       # a float parameter is one value: tests on it (is_nan, comparisons) refine its later uses
             fr.locals[i + 1] = self.alloc(st, a)
         outs = []
         work = [(st, 0, fr.locals, (), 0)]
@@ -1468,6 +1490,20 @@ class Exec(Interp):
                 if self.prove_le(st, bufv[1], A[1][2]):
                     return [(st, self.mk_option(st, None, True))]
                 return [(st, self.mk_option(st, self.dest_payload_top(st, fr, t), True))]
+        if name in ('index', 'index_mut') and 'RangeTo<usize>>' in (c.get('res') or {}).get('id', '') and len(A) == 2:
+            # base[..n]: requires n <= len; the result is a slice of length n
+            bufv = dv(A[0])
+            rv = A[1]
+            endc = None
+            if rv[0] == 'adt' and rv[3]:
+                fl = next(iter(rv[3].values()))
+                endc = st.cells.get(fl.get('end')) if 'end' in fl else None
+            if bufv[0] == 'buf' and endc is not None and endc[0] == 'int':
+                if self.prove_le(st, endc[2], bufv[1]):
+                    self.discharge('range-index')
+                else:
+                    self.oblige('range-index', fr, 'base[..n] requires n <= len', [self.describe(st, bufv), self.describe(st, endc)], line, chain)
+                return [(st, ('ref', self.alloc(st, ('buf', endc[2]))))]
         if name in ('get_unchecked', 'get_unchecked_mut') and d.startswith('core::slice::') and len(A) == 2:
             # unchecked access: the bound is an obligation of the caller (undefined behaviour otherwise)
             bufv = dv(A[0])
@@ -1485,6 +1521,49 @@ class Exec(Interp):
             return [(st, self.dest_top(st, fr, t))]
         if name in ('reverse', 'fill') and d.startswith('core::slice::'):
             return [(st, self.dest_top(st, fr, t))]
+        if name in ('copied', 'cloned', 'by_ref', 'enumerate') and 'Iterator' in (tr or d) and A:
+            # length-preserving adaptors over a window iterator keep its remaining count: ('top', 'iter', n, enumerated)
+            v = A[0]
+            nvid, en = None, False
+            if v[0] == 'adt' and v[1].endswith(('::WindowIterator', '::ReversedWindowIterator')) and v[3]:
+                fl = next(iter(v[3].values()))
+                cc = st.cells.get(fl.get('size')) if 'size' in fl else None
+                if cc is not None and cc[0] == 'int':
+                    nvid = cc[2]
+            elif v[0] == 'top' and len(v) >= 4:
+                nvid, en = v[2], v[3]
+            if nvid is not None:
+                return [(st, ('top', 'iter', nvid, en or name == 'enumerate'))]
+        if name == 'fold' and len(A) == 3 and A[0][0] == 'top' and len(A[0]) >= 4 and A[2][0] == 'closure':
+            # fold over n items: abstract fixpoint of the closure on (accumulator, item), the item index of an enumerate() being < n
+            nvid, en = A[0][2], A[0][3]
+            cb = self.body(A[2][1])
+            if cb is not None and cb.arg_count == 3 and chain.count(cb.id) < 2:
+                s_acc, acc = st, A[1]
+                stable = False
+                for _round in range(5):
+                    s_it = s_acc.copy()
+                    item = self.top_of(s_it, cb.locals[3]['tyj'])
+                    if en and item[0] == 'tuple':
+                        hi = self.rng(s_it, nvid)[1]
+                        idx = self.mk_int(s_it, 'usize', 0, max(hi - 1, 0))
+                        s_it.rel.add(('lt', idx[2], nvid))
+                        s_it.cells[item[1][0]] = idx
+                    try:
+                        outs = self.run_fn(cb, s_it, [A[2], acc, item], chain + [cb.id], depth + 1)
+                    except Infeasible:
+                        outs = []
+                    if not outs:
+                        stable = True       # the closure never returns normally: the accumulator is the initial one
+                        break
+                    s_new, v_new = self.join_outcomes([(s_acc, acc)] + outs)
+                    if self.shape_of(s_new, v_new) == self.shape_of(s_acc, acc):
+                        s_acc, acc = s_new, v_new
+                        stable = True
+                        break
+                    s_acc, acc = s_new, v_new
+                if stable:
+                    return [(s_acc, acc)]
         if name in ('sum', 'product', 'fold', 'count', 'contains', 'mul_add', 'cmp', 'partial_cmp', 'collect', 'map', 'rev', 'zip', 'enumerate',
                     'next', 'copied', 'cloned', 'skip', 'take', 'all', 'any', 'for_each', 'reduce', 'windows', 'step_by', 'first', 'last',
                     'get', 'get_unchecked', 'get_unchecked_mut', 'sort_unstable_by', 'sort_unstable_by_key', 'sort_by', 'sort_by_key', 'sort_unstable', 'sort',
